@@ -23,7 +23,7 @@ PY_SUCC = "PyLibSucc PySrcSucc PySrcSuccFacts PySrcSuccCtl PySrcSuccCtlFacts"   
 PY_API = PY_SCCMAIN + " PyLibBlocks PySrcSdBlocks PySrcSdBlocksFacts PySrcApi PySrcEndToEndScc PySrcEndToEndBlocks"     # public methods expand_scc / expand_block / build; expand_source_blocks
 PY_CONTROL = "PyLib PyLibSd PyLibPerc PyLibCore PyLibControl PySrcControl PySrcControlFacts PySrcFindDriversFacts PySrcControlCorollaries"    # control.find_drivers, drivers_of_succession
 PY_ASEEDS = PY_MIN + " Candidates Blocks ASeeds PySrcSdASeeds PySrcSdASeedsFacts"     # _sd_algorithms/expand_attractor_seeds.py
-EXTRA_IMPORTS = {"C08": "Candidates Control PyLib PyLibSd PyLibPerc PySrcRetained PySrcRetainedFacts PySrcGreedyFacts", "C09": "PetriNet PySrcClingo PySrcClingoFacts", "C17": "Names NamesFacts PySrcNames PySrcNamesFacts", "C02": PY_SD + " " + PY_CORE2 + " PySrcEndToEnd", "C01": PY_API, "C03": PY_SD + " " + PY_ASEEDS + " PySrcComplFacts " + PY_API + " " + PY_GETTERS, "C04": PY_SD + " " + PY_CORE, "C05": PY_CORE2 + " " + PY_MIN, "C13": PY_SD + " " + PY_TARGET + " " + PY_ASEEDS + " PySrcTermFacts " + PY_API, "C14": PY_CORE2 + " " + PY_SCC + " " + PY_API, "C15": PY_SD + " " + PY_TARGET + " " + PY_ASEEDS + " " + PY_API, "C16": "PyLib PyLibPickle PySrcPickle PySrcPickleFacts " + PY_CORE2,
+EXTRA_IMPORTS = {"C12": "Filter PySrcFilter PySrcFilterFacts", "C08": "Candidates Control PyLib PyLibSd PyLibPerc PySrcRetained PySrcRetainedFacts PySrcGreedyFacts", "C09": "PetriNet PySrcClingo PySrcClingoFacts", "C17": "Names NamesFacts PySrcNames PySrcNamesFacts", "C02": PY_SD + " " + PY_CORE2 + " PySrcEndToEnd", "C01": PY_API + " Filter PySrcFilter PySrcFilterFacts", "C03": PY_SD + " " + PY_ASEEDS + " PySrcComplFacts " + PY_API + " " + PY_GETTERS, "C04": PY_SD + " " + PY_CORE, "C05": PY_CORE2 + " " + PY_MIN, "C13": PY_SD + " " + PY_TARGET + " " + PY_ASEEDS + " PySrcTermFacts " + PY_API, "C14": PY_CORE2 + " " + PY_SCC + " " + PY_API, "C15": PY_SD + " " + PY_TARGET + " " + PY_ASEEDS + " " + PY_API, "C16": "PyLib PyLibPickle PySrcPickle PySrcPickleFacts " + PY_CORE2,
                  "C06": PY_SPACE + " " + PY_TARGET + " PySrcEndToEndControl " + PY_CONTROL + " " + PY_SUCC, "C07": PY_CONTROL + " PyLibSd2 PySrcSdBase PySrcSdTarget PySrcSdTargetFacts " + PY_SUCC, "C10": PY_PLACE, "C11": PY_PERC, "C19": PY_SD + " " + PY_CORE, "C20": PY_KEY + " " + PY_CORE2 + " PyLibSd PyLibPerc PySrcIso PySrcIsoFacts " + PY_GETTERS}
 
 def imports_for(pid):
@@ -64,6 +64,7 @@ the 'at least one' clause holds: expand_scc_AttrServed / expand_scc_every_attrac
            ("source_expand_source_blocks_fresh", "py_expand_source_blocks_fresh", None), ("source_public_expand_block", "py_api_expand_block_spec", None),
            ("source_text_build_one_to_one", "py_api_build_one_to_one", "C01 for the SOURCE TEXT of build(): when the generated expand_block with build()'s defaults returns True on a fresh diagram, the clean-block verdicts of the run are right (decided per run) and the seeds of every expanded node are one-to-one with that node's own attractors, then the seeds of the whole diagram are one-to-one with the attractors of the network"),
            ("source_text_expand_scc_every_attractor_reported", "py_api_expand_scc_every_attractor_reported", "C01 ('no attractor is lost') for the SOURCE TEXT of the source-SCC strategy: when the generated public method expand_scc (PySrcApi.v, a call of the generated expand_source_SCCs) returns True on a fresh diagram without the motif-avoidance shortcut, every attractor is reported by an expanded node whose seeds are one-to-one with its own attractors"),
+           ("source_compute_attractors_symbolic", "py_compute_attractors_symbolic_spec", "translator tie for the candidate filter: the function GENERATED from the current text of attractor_symbolic.compute_attractors_symbolic (PySrcFilter.v: preamble / postamble compared with reference texts, the loop -- candidate order, the unchecked-last-candidate shortcut, avoid.minus before the test, avoid.union after a success, the appends -- translated statement by statement) is the model's compute_attractors_filter, to which filter_exact applies"),
            ("filter_exact", "filter_exact", "given covering candidates, the filter returns exactly one seed per attractor of the node, and the sets are the attractors"),
            ("filter_exact_seeds_only", "filter_exact_seeds_only", "the seeds_only shortcut (last candidate of a pseudo-minimal node) is sound"),
            ("check_seeds_ok", "check_seeds_ok", "the verdict predicate run on the implementation's output is exact"),
@@ -421,7 +422,8 @@ order; symbolic_test_meets_spec shows it meets the contract (attractor_test) the
 recorded call of the real function is checked against that contract.  PARTIAL: the fully symbolic fallback is
 library code (AEON xie_beerel); it is judged through check_seeds / check_sets against the brute-force
 attractors, which makes it agree with the default method.""",
- theorems=[("check_sets_ok", "check_sets_ok", None), ("filter_exact", "filter_exact", "sets are, in seed order, the reachable sets of the seeds = their attractors"),
+ theorems=[("source_compute_attractors_symbolic", "py_compute_attractors_symbolic_spec", "translator tie for the candidate filter: the function GENERATED from the current text of attractor_symbolic.compute_attractors_symbolic (loop translated statement by statement, preamble / postamble compared with reference texts) is the model's compute_attractors_filter: seeds and sets are produced together, in candidate order"),
+           ("check_sets_ok", "check_sets_ok", None), ("filter_exact", "filter_exact", "sets are, in seed order, the reachable sets of the seeds = their attractors"),
            ("reach_list_sound", "reach_list_sound", None), ("reach_list_complete", "reach_list_complete", None),
            ("attractor_is_class", "attractor_is_class", "an attractor is the reachable set of any of its states"),
            ("symbolic_test_some", "symbolic_test_some", "the interleaved reachability returns exactly the reachable set ..."),
